@@ -12,8 +12,8 @@ from vf.runner import Violation
 ID = "C12"
 LEVEL = "exploration"
 TECHNIQUE = "generated ABM configurations (Hypothesis) with instrumented Model/Agent/DataCollector subclasses vs expected call log"
-RULE = ("cases = (start, stop, dt in {1,1/2,1/4,1/5,1/8,1/10,1/20}, population, per-step create/delete actions, collect_data, "
-        "driving mode in {run after configure, run after constructor run specs, external run_step, bptk.run_scenarios}); the recorded "
+RULE = ("cases = (start in -4..6, stop >= start incl. stop <= 0, dt in {1,1/2,1/4,1/5,1/8,1/10,1/20}, population, per-step create/delete actions, collect_data, "
+        "driving mode in {run after configure, run after constructor run specs, external run_step, bptk.run_scenarios with one or two scenarios of the manager in one call, a bptk session over two managers}, progress display on/off); the recorded "
         "sequence of begin_round / handle_events / act / end_round / statistics calls must equal the sequence the statement "
         "prescribes, with time = round + step*dt. non-trivial = 1/dt > 1 or the population changes during the run; distinct by case")
 ASSUMPTIONS = [
